@@ -1,9 +1,12 @@
 package evaluator
 
 import (
+	"errors"
+	"fmt"
 	"math"
 
 	"github.com/textwire/textwire/v2/ctx"
+	"github.com/textwire/textwire/v2/fail"
 	"github.com/textwire/textwire/v2/object"
 	"github.com/textwire/textwire/v2/utils"
 )
@@ -11,7 +14,7 @@ import (
 // floatIntFunc returns the integer part of the given float
 func floatIntFunc(_ *ctx.EvalCtx, receiver object.Object, _ ...object.Object) (object.Object, error) {
 	val := receiver.(*object.Float).Value
-	return &object.Int{Value: int64(val)}, nil
+	return floatToInt("int", val, val)
 }
 
 // floatStrFunc converts a float to a string and returns it
@@ -34,17 +37,28 @@ func floatAbsFunc(_ *ctx.EvalCtx, receiver object.Object, _ ...object.Object) (o
 // floatCeilFunc returns the rounded up value of a float to the nearest integer
 func floatCeilFunc(_ *ctx.EvalCtx, receiver object.Object, _ ...object.Object) (object.Object, error) {
 	val := receiver.(*object.Float).Value
-	return &object.Int{Value: int64(math.Ceil(val))}, nil
+	return floatToInt("ceil", val, math.Ceil(val))
 }
 
 // floatFloorFunc returns the rounded down value of a float to the nearest integer
 func floatFloorFunc(_ *ctx.EvalCtx, receiver object.Object, _ ...object.Object) (object.Object, error) {
 	val := receiver.(*object.Float).Value
-	return &object.Int{Value: int64(math.Floor(val))}, nil
+	return floatToInt("floor", val, math.Floor(val))
 }
 
 // floatRoundFunc returns the rounded value of a float to the nearest integer
 func floatRoundFunc(_ *ctx.EvalCtx, receiver object.Object, _ ...object.Object) (object.Object, error) {
 	val := receiver.(*object.Float).Value
-	return &object.Int{Value: int64(math.Round(val))}, nil
+	return floatToInt("round", val, math.Round(val))
+}
+
+// floatToInt converts the result of a float function to an integer. NaN,
+// the infinities and values beyond the 64-bit range have no integer
+func floatToInt(funcName string, receiver, result float64) (object.Object, error) {
+	if math.IsNaN(result) || result >= 1<<63 || result < -(1<<63) {
+		msg := fmt.Sprintf(fail.ErrFuncOutOfIntRange, funcName, object.FLOAT_OBJ, utils.FloatToStr(receiver))
+		return nil, errors.New(msg)
+	}
+
+	return &object.Int{Value: int64(result)}, nil
 }
